@@ -751,8 +751,8 @@ Lemma spellings_agree_partial_proof : forall cls op ss s1 s2,
 Proof.
   intros cls op ss s1 s2 Hc Ho Hs Ha Hb Hd H1 H2.
   pose proof spellings_agree_table as T. rewrite forallb_forall in T. specialize (T cls Hc).
-  rewrite forallb_forall in T. specialize (T (op, ss) Ho). cbn in T.
-  unfold agree_clauses in T. rewrite Hs, Ha, Hb, Hd in T. cbn in T.
+  rewrite forallb_forall in T. specialize (T (op, ss) Ho). cbn [fst snd] in T.
+  unfold agree_clauses in T. rewrite Hs, Ha, Hb, Hd in T. cbn [andb implb] in T.
   exact (all_same_leaf_pair cls ss s1 s2 T H1 H2).
 Qed.
 
